@@ -34,7 +34,7 @@ pub fn emit_tree(t: &RefTree, out: &mut Vec<String>, rng: &mut Rng) {
     }
 }
 
-fn static_kind(k: u32) -> bool {
+pub fn static_kind(k: u32) -> bool {
     STATICS.iter().any(|(s, _)| *s == k)
 }
 
@@ -116,7 +116,7 @@ pub fn deep_tree(rng: &mut Rng, d: usize) -> RefTree {
 }
 
 /// all forests with exactly `n` elements over the small alphabets
-fn forests(n: usize, toks: &[RefTree], kinds: &[u32], memo: &mut Vec<Option<Vec<Vec<RefTree>>>>) -> Vec<Vec<RefTree>> {
+pub fn forests(n: usize, toks: &[RefTree], kinds: &[u32], memo: &mut Vec<Option<Vec<Vec<RefTree>>>>) -> Vec<Vec<RefTree>> {
     if let Some(Some(v)) = memo.get(n) {
         return v.clone();
     }
@@ -743,6 +743,8 @@ pub fn gen_greeneq(seed: u64, tier: &str) -> Vec<String> {
 
 pub fn generate(what: &str, seed: u64, tier: &str) -> Vec<String> {
     match what {
+        "red" => crate::gen_red::gen_red(seed, tier),
+        "queries" => crate::gen_red::gen_queries(seed, tier),
         "greeneq" => gen_greeneq(seed, tier),
         "faults" => gen_faults(seed, tier),
         "checkpoints" => gen_checkpoints(seed, tier),
